@@ -154,3 +154,64 @@ Example C02_depth_prefix_refuted :
   p_valid (handle st 5) = true /\ lvl_of (run_lvl cyc_ops) 5 = 4 /\
   p_depth (handle st 5) = 18446744073709551612.
 Proof. exact (proj2 depth_prefix_refuted). Qed.
+
+(* ================================================================== recursive consumers *)
+(* "every recursive consumer uses time and stack bounded by T and D": Equal, Canonicalize and
+   the cross-message deep copy (lemmas in Value/EqualSafe.v, Value/CanonSafe.v,
+   Core/CopySafe.v).  The fuel of the models is their recursion depth. *)
+From CV Require Import Value.EqualM Value.EqualSafe Value.CanonM Value.CanonSafe Core.Builder Core.CopySafe.
+
+(* Equal: fuel D + 2 is never exhausted for pointers read under depth limit D (their depth
+   budgets are <= D - 1 by C02_depth_bound); no panic; both traversal budgets only go down
+   and stay >= 0, so Equal consumes at most what is left of T in each message *)
+Theorem C02_equal_m_safe : forall c fx x fuel w p q D,
+  ectx_ok x -> cfg_strict c = true -> fx_depth (fx_rd fx) = true ->
+  wf_ptr (segs_of x SA) p -> wf_ptr (segs_of x SB) q -> lims_nonneg w ->
+  0 <= p_depth p <= D - 1 -> 0 <= p_depth q <= D - 1 -> D + 2 <= Z.of_nat fuel ->
+  let r := equal_m fuel c fx x w p q in
+  fst r <> EPanic /\ fst r <> EFuel /\ lims_le (snd r) w.
+Proof. exact equal_m_safe. Qed.
+Print Assumptions C02_equal_m_safe.
+
+Theorem C02_equal_m_nofuel : forall c fx x, fx_depth (fx_rd fx) = true ->
+  forall fuel w p q, efuel_ok p q fuel -> fst (equal_m fuel c fx x w p q) <> EFuel.
+Proof. exact equal_m_nofuel. Qed.
+Print Assumptions C02_equal_m_nofuel.
+
+(* D + 2 is tight for the model (one unit is spent on a pair of null pointers) *)
+Example C02_equal_fuel_tight :
+  let c := mkCfg 0 2 true true in
+  let fx := mkEFix true true (mkFix true true true) in
+  msg_ok eq_deep_msg /\
+  fst (fst (run_equal 3 c c fx eq_deep_msg [] eq_deep_msg [] true SelRoot SelRoot)) = EFuel /\
+  fst (fst (run_equal 4 c c fx eq_deep_msg [] eq_deep_msg [] true SelRoot SelRoot)) = EOk true.
+Proof. exact equal_fuel_tight. Qed.
+
+(* deep copy: from fuel 2 * (depth budget) + 3 on (2D + 1 for a pointer read under depth
+   limit D) the result does not depend on the fuel: no error is a fuel artefact *)
+Theorem C02_write_ptr_fuel_enough : forall f k strict w dsid off l src fc,
+  depth_nonneg src -> wneed src <= Z.of_nat f ->
+  write_ptr (f + k) strict w dsid off l src fc = write_ptr f strict w dsid off l src fc.
+Proof. exact write_ptr_fuel_enough. Qed.
+Print Assumptions C02_write_ptr_fuel_enough.
+
+Theorem C02_copy_struct_fuel_enough : forall f k strict w dst l src,
+  depth_nonneg src -> cneed src <= Z.of_nat f ->
+  copy_struct (f + k) strict w dst l src = copy_struct f strict w dst l src.
+Proof. exact copy_struct_fuel_enough. Qed.
+Print Assumptions C02_copy_struct_fuel_enough.
+
+(* Canonicalize: for a source struct read under depth limit D, fuel 2D + 1 excludes the
+   out-of-fuel outcome (two units per pointer level: fill -> ptr -> fill/list) *)
+Theorem C02_canon_m_nofuel : forall c fx fuel src rl s D,
+  fx_depth (cx_rd fx) = true -> 0 <= p_depth s <= D - 1 -> 2 * D + 1 <= Z.of_nat fuel ->
+  fst (canonicalize c fx fuel src rl s) <> KFuel.
+Proof. exact canonicalize_nofuel. Qed.
+Print Assumptions C02_canon_m_nofuel.
+
+(* copy and canonicalisation never increase the source's traversal budget and keep it >= 0
+   (part of [rpost] / [wgood] in C01_write_ptr_safe, C01_copy_struct_safe, C01_canon_all, and
+   the second conjunct of C01_canon_m_safe): what they consume is at most what is left of T.
+   NOT proved (full statements in Value/CanonSafe.v): canon_alloc_partial / copy_alloc_partial
+   (bytes appended to the destination <= 3 * consumed budget + 24 * pointer slots + top-level
+   size). *)
